@@ -4,6 +4,9 @@ package main
 
 import (
 	"go/ast"
+	"os"
+	"path/filepath"
+	"sort"
 	"strings"
 
 	"verifextract/lib"
@@ -44,6 +47,27 @@ func stmts(f *lib.File, fd *ast.FuncDecl) []string {
 		res = append(res, f.Render(s))
 	}
 	return res
+}
+
+// callsRendered lists every call expression under n rendered with its arguments, source order
+func callsRendered(f *lib.File, n ast.Node) []string {
+	type pc struct {
+		pos int
+		s   string
+	}
+	var res []pc
+	ast.Inspect(n, func(x ast.Node) bool {
+		if c, ok := x.(*ast.CallExpr); ok {
+			res = append(res, pc{int(c.Pos()), f.Render(c)})
+		}
+		return true
+	})
+	sort.SliceStable(res, func(i, j int) bool { return res[i].pos < res[j].pos })
+	out := make([]string, len(res))
+	for i, r := range res {
+		out[i] = r.s
+	}
+	return out
 }
 
 func main() {
@@ -319,6 +343,76 @@ func main() {
 				return true
 			})
 			e.Strs("proxyInfoFields", fields, "fields of proxyFrac with an Info type (none: no cached copy)")
+		}
+		if f, err := r.Load("fracmanager/sealed_frac_cache.go"); err != nil {
+			e.Missing("fracmanager/sealed_frac_cache.go", err)
+		} else {
+			if fd := f.Func("", "NewFracCacheFromDisk"); fd == nil {
+				e.Missing("newFracCacheFromDisk", "NewFracCacheFromDisk not found")
+			} else {
+				e.Strs("newFracCacheFromDisk", stmts(f, fd), "statements of NewFracCacheFromDisk")
+			}
+			if fd := f.Func("sealedFracCache", "LoadFromDisk"); fd == nil {
+				e.Missing("cacheLoadCalls", "sealedFracCache.LoadFromDisk not found")
+			} else {
+				// every call of LoadFromDisk that is not logging: reading the file and decoding it
+				e.Strs("cacheLoadCalls", lib.Filter(callsRendered(f, fd.Body), func(c string) bool {
+					return !strings.HasPrefix(c, "logger.") && !strings.HasPrefix(c, "zap.") && !strings.HasPrefix(c, "len(")
+				}), "the non-logging calls of LoadFromDisk, rendered with their arguments, source order")
+			}
+			if fd := f.Func("sealedFracCache", "getContentWithVersion"); fd == nil {
+				e.Missing("cacheSaveMarshal", "getContentWithVersion not found")
+			} else {
+				e.Strs("cacheSaveMarshal", lib.Filter(callsRendered(f, fd.Body), func(c string) bool { return strings.HasPrefix(c, "json.") }), "how the cache content is produced")
+			}
+		}
+		if f, err := r.Load("fracmanager/loader.go"); err != nil {
+			e.Missing("fracmanager/loader.go", err)
+		} else if fd := f.Func("loader", "loadSealedFrac"); fd == nil {
+			e.Missing("loadSealedFrac", "loader.loadSealedFrac not found")
+		} else {
+			e.Strs("loadSealedFrac", stmts(f, fd), "statements of loader.loadSealedFrac")
+		}
+		// every call site of Info.InitEmptyDistribution in the repository (non-test, non-verif files)
+		{
+			var sites []string
+			filepath.WalkDir(r.Root, func(p string, d os.DirEntry, err error) error {
+				if err != nil {
+					return nil
+				}
+				if d.IsDir() {
+					if n := d.Name(); n == ".git" || n == "vendor" || n == "node_modules" {
+						return filepath.SkipDir
+					}
+					return nil
+				}
+				n := d.Name()
+				if !strings.HasSuffix(n, ".go") || strings.HasSuffix(n, "_test.go") || strings.HasPrefix(n, "verif_export") {
+					return nil
+				}
+				rel, _ := filepath.Rel(r.Root, p)
+				f, err := r.Load(rel)
+				if err != nil {
+					return nil
+				}
+				for _, decl := range f.AST.Decls {
+					fd, ok := decl.(*ast.FuncDecl)
+					if !ok || fd.Body == nil {
+						continue
+					}
+					ast.Inspect(fd.Body, func(x ast.Node) bool {
+						if c, ok := x.(*ast.CallExpr); ok {
+							if sel, ok := c.Fun.(*ast.SelectorExpr); ok && sel.Sel.Name == "InitEmptyDistribution" {
+								sites = append(sites, filepath.ToSlash(rel)+":"+fd.Name.Name)
+							}
+						}
+						return true
+					})
+				}
+				return nil
+			})
+			sort.Strings(sites)
+			e.Strs("initEmptyDistributionCallers", sites, "file:function of every call of InitEmptyDistribution (none on a load path)")
 		}
 		if f, err := r.Load("fracmanager/searcher.go"); err != nil {
 			e.Missing("fracmanager/searcher.go", err)
